@@ -309,8 +309,29 @@ def work(payload):
     return acc
 
 
+def env_work(payload):
+    """A reduced case list (every 37th case, at least one of each kind), run inside another interpreter environment."""
+    acc = Acc()
+    thorough = payload["tier"] == "thorough"
+    for idx, (kind, c) in enumerate(all_cases(thorough)):
+        if idx % (11 if thorough else 37) != 0:
+            continue
+        problems = run_any(kind, c)
+        acc.case(nontrivial=True, outcome="ok" if not problems else "violation")
+        for sig, det in problems:
+            acc.violation("C14:" + sig, idx, {"kind": kind, "case": c}, det)
+    return acc
+
+
+def environment_replay(payload):
+    return replay_sigs(payload["case"])
+
+
 def run(ctx):
-    acc = Acc.merged(ctx.pool.shards(MOD, "work", ctx.base(), nshards=ctx.pool.n * 4))
+    from ..runner import ENVIRONMENTS, EnvironmentRuns
+
+    envruns = EnvironmentRuns(MOD, "env_work", ctx.base(), ("python-O", "PYTHONOPTIMIZE=2"))
+    acc = Acc.merged(ctx.pool.shards(MOD, "work", ctx.base(), nshards=ctx.pool.n * 4) + envruns.results())
     cov = {
         "evaluations": acc.evaluations,
         "distinct_nontrivial": acc.nontrivial,
@@ -330,4 +351,8 @@ def run(ctx):
 
 
 def replay_sigs(case):
+    if case.get("environment"):
+        from ..runner import replay_in_environment
+
+        return replay_in_environment(MOD, case)
     return ["C14:" + s for s, _ in run_any(case["kind"], case["case"])]
